@@ -118,6 +118,7 @@ PROPS = {
     'C03': dict(
         title='x86-64 JIT-compiled code computes the same result as the interpreter',
         parts=[
+            Part('wfwitness', lambda h: True, lambda h, c, info=None: True, 'vacuity guard (native, exhaustive over the opcodes): the opcode-specific precondition of every per-opcode harness is satisfiable'),
             Part('jit', lambda h: h.startswith('arm_') or h in ('resolve_jumps_contract', 'epilogue_contract', 'map_register_contract') or h.startswith('prologue_'),
                  lambda h, c, info=None: 'ensures:' in desc(c) or (in_file(c, 'src/jit.rs') and kani.is_panic_check(c)) or 'instruction fetch outside' in desc(c),
                  'per opcode: the bytes the real encoders emit (whole jit.rs compiled verbatim) are decoded and executed by the x86-64 subset semantics from an arbitrary machine state and equal spec_step through the register map: registers, next pc (recorded jump targets), data access, rsp/packet-base preserved; prologue, epilogue and resolve_jumps contracts'),
@@ -129,9 +130,11 @@ PROPS = {
     'C12': dict(
         title='Compiling any verified program returns Ok or Err and never panics or overruns',
         parts=[
-            Part('jit', lambda h: h.startswith('arm_') or h in ('resolve_jumps_contract', 'map_register_contract', 'epilogue_contract') or h.startswith('prologue_'),
-                 lambda h, c, info=None: (in_file(c, 'src/jit.rs') and kani.is_panic_check(c)) or (in_file(c, 'src/shadow.rs') and ('shadow Vec' in desc(c) or 'index out of bounds: the len' in desc(c)))
-                 or any(k in desc(c) for k in ('counting pass sizes', 'emitted bytes stay inside', 'fails only for an unregistered', 'both passes agree', 'pc_locs[pc]', 'resolve_jumps succeeds', 'pc_locs indexed', 'no other byte changes', 'rel32 =')),
+            Part('wfwitness', lambda h: True, lambda h, c, info=None: True, 'vacuity guard (native, exhaustive over the opcodes): the opcode-specific precondition of every per-opcode harness is satisfiable'),
+            Part('jit', lambda h: h.startswith('arm_') or h in ('resolve_jumps_contract', 'map_register_contract', 'epilogue_contract', 'two_pass_same_arguments', 'jit_memory_new_nostd') or h.startswith('prologue_'),
+                 lambda h, c, info=None: (in_file(c, 'src/jit.rs') and kani.is_panic_check(c)) or 'same arguments' in desc(c) or 'counting pass' in desc(c) or 'is refused' in desc(c) or 'suitable memory' in desc(c) or (in_file(c, 'src/shadow.rs') and ('shadow Vec' in desc(c) or 'index out of bounds: the len' in desc(c)))
+                 or any(k in desc(c) for k in ('counting pass sizes', 'emitted bytes stay inside', 'fails only for an unregistered', 'both passes agree', 'pc_locs[pc]', 'resolve_jumps succeeds', 'pc_locs indexed', 'no other byte changes', 'rel32 =',
+                                             'call target is pc+1+imm', 'next pc equals spec_step', 'every rel32 placeholder is recorded')),
                  'per opcode: no panic in the arm / encoders / map_register under the verifier facts; the counting pass (write_enabled = false) advances offset exactly like the emission pass (so the buffer sized by pass 1 fits pass 2 and the emit_bytes! assert is unreachable); compile error only for an unregistered helper; resolve_jumps indexes pc_locs in range and touches only the 4 displacement bytes'),
             Part('clif', lambda h: True,
                  lambda h, c, info=None: (in_file(c, 'src/cranelift.rs') and kani.is_panic_check(c)) or 'placeholder message' in desc(c) or 'cranelift:' in desc(c) or 'cranelift verifier' in desc(c)
@@ -146,6 +149,7 @@ PROPS = {
     'C04': dict(
         title='Cranelift-compiled code computes the same result as the interpreter',
         parts=[
+            Part('wfwitness', lambda h: True, lambda h, c, info=None: True, 'vacuity guard (native, exhaustive over the opcodes): the opcode-specific precondition of every per-opcode harness is satisfiable'),
             Part('clif', lambda h: h.startswith('clif_'),
                  lambda h, c, info=None: ('ensures:' in desc(c) and 'trap <=>' not in desc(c) and 'trap precedes' not in desc(c)) or (in_file(c, 'src/cranelift.rs') and kani.is_panic_check(c)),
                  'per opcode: cranelift.rs (compiled verbatim against the stub cranelift_* crates, IR evaluated eagerly) leaves the register file / branch target / data access / helper call that spec_step prescribes; a program containing an eBPF-to-eBPF call is refused; an unregistered helper id is a compile-time error'),
@@ -156,6 +160,7 @@ PROPS = {
     'C11': dict(
         title='Cranelift-compiled code never touches memory outside the program regions',
         parts=[
+            Part('wfwitness', lambda h: True, lambda h, c, info=None: True, 'vacuity guard (native, exhaustive over the opcodes): the opcode-specific precondition of every per-opcode harness is satisfiable'),
             Part('clif', lambda h: h.startswith('clif_') and any(h[5:].startswith(m) for m in ('ld_abs', 'ld_ind', 'ld_b', 'ld_h', 'ld_w', 'ld_dw_reg', 'st_')),
                  lambda h, c, info=None: any(k in desc(c) for k in ('trap <=>', 'trap precedes', 'exactly one access', 'emits its access')),
                  'per memory opcode, all addresses / widths / region layouts: the emitted bounds check traps iff some byte of the access is outside packet data, metadata buffer and the 512-byte stack, and the trap precedes the access'),
@@ -292,12 +297,12 @@ PROPS = {
     'C19': dict(
         title='Built-in helpers compute their documented functions',
         parts=[
-            Part('codec', lambda h: h == 'helper_gather_bytes', real_or_harness, 'Kani, real crate, full domain: gather_bytes'),
+            Part('codec', lambda h: h in ('helper_gather_bytes', 'helper_bpf_trace_printf_count'), real_or_harness, 'Kani, real crate, full domain: gather_bytes; bpf_trace_printf returns 29 + the hexadecimal digit counts of its last three arguments (the length of the line it prints)'),
             Part('helpers', lambda h: True, lambda h, c, info=None: True,
                  'Verus: memfrob (XORs exactly [ptr, ptr+len) once, everything else unchanged), strcmp (null => all-ones; else absdiff at the first differing/terminating position; lemma: 0 <=> equal strings), rand tail (min < max => min <= r <= max, no overflow)'),
         ],
-        level_text='Proof for gather_bytes (Kani, complete), memfrob / strcmp (Verus loop invariants over an abstract byte memory), the arithmetic of rand (Verus). sqrti and the return value of bpf_trace_printf are floating point and stay UNVERIFIED.',
-        assumptions=['sqrti and bpf_trace_printf: f64 sqrt/log - outside both tools; reading of the code: bpf_trace_printf(_,_,u64::MAX,0,0) returns 48 for 47 printed bytes (f64 rounding of log16), noted, not decided by this check',
+        level_text='Proof for gather_bytes and the byte count of bpf_trace_printf (Kani, complete), memfrob / strcmp (Verus loop invariants over an abstract byte memory), the arithmetic of rand (Verus). sqrti is floating point and stays UNVERIFIED.',
+        assumptions=['sqrti: f64 sqrt - outside both tools (UNVERIFIED)', 'bpf_trace_printf: that println! emits exactly the format string with `{:#x}` = 0x + hexadecimal digits is core::fmt (trusted)',
                      'bpf_time_getns is not part of the statement'],
     ),
     'C20': dict(
